@@ -16,6 +16,9 @@ import (
 type udpCase struct {
 	Seed          int64           `json:"seed"`
 	MTU           int             `json:"mtu"`
+	// ClientMTU, if non-zero, is the client's MTU and MTU is the server's: the MTU is a local sending
+	// limit and is not negotiated, so the two ends may legally differ (seeded C02-7)
+	ClientMTU     int             `json:"client_mtu,omitempty"`
 	ClientPattern json.RawMessage `json:"client_pattern"`
 	ServerPattern json.RawMessage `json:"server_pattern"`
 	Multiplex     int             `json:"multiplex"`
@@ -170,7 +173,7 @@ func udpContentProblems(k udpCase, a *sim.UDPAudit) (problems []string, attribut
 func runUDPCase(k udpCase) udpOutcome {
 	cfg := sim.Config{UDP: true, MTU: k.MTU, Seed: k.Seed, Multiplex: k.Multiplex,
 		ClientPattern: patFromJSON(k.ClientPattern), ServerPattern: patFromJSON(k.ServerPattern)}
-	w, err := sim.NewWorld(cfg)
+	w, err := sim.NewWorldMTUs(cfg, k.ClientMTU)
 	if err != nil {
 		return udpOutcome{setup: err}
 	}
@@ -209,6 +212,9 @@ func udpRun(c *core.Ctx, k udpCase, prop string) {
 	c.Eval(string(key), true)
 	c.Res.TracesValidated++
 	c.Hist("mtu", fmt.Sprint(k.MTU))
+	if k.ClientMTU != 0 && k.ClientMTU != k.MTU {
+		c.Hist("mtu_server/client", fmt.Sprintf("%d/%d", k.MTU, k.ClientMTU))
+	}
 	c.Hist("sessions", fmt.Sprint(len(k.Scripts)))
 	fk := "clean"
 	f := k.Faults
